@@ -424,7 +424,7 @@ for _p, _cls in (("C02", 0x7f), ("C03", 0x02), ("C05", 0x7f), ("C17", 0x7f)):
     PROPS[_p]["stages"].append(dict(name="crash-from-deep", driver="crash", flavour="asan", weight=0.4,
                                     args=["--prop", _p, "--classes", str(_cls), "--base", BASE_DEEP, "--wide", "1"],
                                     quick=["--cfgs", "B1", "--len", "1", "--nested", "0", "--scripted", "0"],
-                                    thorough=["--cfgs", "B1;B1,reuse=1", "--len", "2", "--nested", "1", "--scripted", "0"]))
+                                    thorough=["--cfgs", "B1", "--len", "2", "--nested", "0", "--scripted", "0"]))
     PROPS[_p]["rule"] += ("; prepared-state stages: the same enumeration started from (a) a database whose reused MANIFEST is longer than one 32 KiB block and (b) a multi-level layout after a reopen "
                           "(crash points only after the preparation run, whose contents are part of every image's expected state)")
 
